@@ -53,6 +53,7 @@ from ..rulekit import *
 from ..norm import Normalizer, Poly
 from ..exc import EscapeAnalysis
 from . import _kit_c20 as K
+from ..paths import PathModel
 
 R = Rules(
     "C20",
@@ -1433,6 +1434,201 @@ def _infinite_loop_exits(cfg):
 
 
 # ---------------------------------------------------------------------------
+# C20.d helpers: timers armed for an absolute time (`loop.call_at(loop.time() + delay, cb)`) and timer callbacks
+# that are functions of rd.py.  Two designs are interpreted:
+#   eager  every (re)start of the lifetime arms a timer that deletes unconditionally when it fires (and cancels
+#          the one that was pending): the confirmed code;
+#   lazy   the timer callback compares the loop's clock with a deadline field D of the registration; it deletes
+#          when D has passed and otherwise re-arms itself for D.  This is right exactly as long as the pending
+#          timer never fires LATER than D, i.e. every writer of D either arms a timer for the new value on every
+#          path that follows, or is guarded by `new >= old` (the pending timer is then early, and the callback
+#          waits for the rest).  The invariant is evaluated over all writers of D in rd.py.
+
+
+def _is_loop_expr(fi, e):
+    e = resolve_local(fi.node, e)
+    if isinstance(e, ast.Call) and not e.args and not e.keywords:
+        return (chain(e.func) or "").split(".")[-1] in ("get_running_loop", "get_event_loop")
+    c = chain(e)
+    return c is not None and c.split(".")[-1].lstrip("_") in ("loop", "event_loop")
+
+
+def _is_now(fi, e):
+    """`<event loop>.time()`, directly or through a single-assignment local"""
+    e = resolve_local(fi.node, e)
+    return isinstance(e, ast.Call) and not e.args and not e.keywords and isinstance(e.func, ast.Attribute) \
+        and e.func.attr == "time" and _is_loop_expr(fi, e.func.value)
+
+
+def _add_terms(fi, e, depth=0):
+    e = resolve_local(fi.node, e)
+    if isinstance(e, ast.BinOp) and isinstance(e.op, ast.Add) and depth < 8:
+        return _add_terms(fi, e.left, depth + 1) + _add_terms(fi, e.right, depth + 1)
+    return [e]
+
+
+def _delay_from_now(fi, e):
+    """Poly d when e denotes `<loop>.time() + d` (summands in any order, through locals); else None"""
+    terms = _add_terms(fi, e)
+    nows = [t for t in terms if _is_now(fi, t)]
+    if len(nows) != 1:
+        return None
+    N = Normalizer(env=norm.local_env(fi.node))
+    p = Poly.const(0)
+    try:
+        for t in terms:
+            if t is not nows[0]:
+                p = p + N.poly(t)
+    except norm.NormError:
+        return None
+    return p
+
+
+def _same_value(fi, a, b):
+    if isinstance(a, ast.Name) and isinstance(b, ast.Name) and a.id == b.id and len(writes_to_name(fi.node, a.id)) <= 1:
+        return True
+    ra, rb = resolve_local(fi.node, a), resolve_local(fi.node, b)
+    if ra is rb:
+        return True
+    # two evaluations of one call-free expression over names that are written at most once
+    return same(ra, rb) and not any(isinstance(n, (ast.Call, ast.Await)) for n in ast.walk(ra)) \
+        and all(len(writes_to_name(fi.node, n)) <= 1 for n in names_in(ra))
+
+
+def _self_field_stores(fi, field):
+    """plain assignments `self.F = v` of fi, or None when F is written in any other way there"""
+    out = []
+    for k, x in stores_to(fi.node, field):
+        if k == "assign" and isinstance(x, ast.Assign) and len(x.targets) == 1 and chain(x.targets[0]) == field:
+            out.append(x)
+        else:
+            return None
+    return out
+
+
+def _when_of(fi, cfg, call):
+    """(value expression, {self fields holding that very value when the timer is armed}) of the `when`
+    argument of a call_at; value None when it is read from a field whose content is not known at the call"""
+    when = call.args[0]
+    nid = cfg.loc1(call)
+    c = chain(when)
+    if c and c.startswith("self.") and c.count(".") == 1:
+        st = _self_field_stores(fi, c)
+        if not st:
+            return None, {c}
+        if len(st) == 1 and cfg.dominates(cfg.loc1(st[0]), nid) and cfg.loc1(st[0]) != nid:
+            return st[0].value, {c}
+        return None, {c}
+    fields = set()
+    for n in walk_no_nested(fi.node):
+        if isinstance(n, ast.Assign) and len(n.targets) == 1:
+            t = chain(n.targets[0])
+            if t and t.startswith("self.") and t.count(".") == 1 and _same_value(fi, n.value, when) \
+                    and cfg.dominates(cfg.loc1(n), nid) and len(_self_field_stores(fi, t) or ()) == 1:
+                fields.add(t)
+    return when, fields
+
+
+def _rearm_calls(prog, fi, D, target, value=None):
+    """call_at(...) calls of fi that arm `target` for the deadline field D (or for `value`, the expression
+    just stored into D) and keep the handle in self.timeout"""
+    out = []
+    kept = [x for k, x in stores_to(fi.node, "self.timeout") if k == "assign" and isinstance(x, ast.Assign)]
+    for call in calls_in(fi.node):
+        if not (chain(call.func) or (call.func.attr if isinstance(call.func, ast.Attribute) else "")).endswith("call_at") or len(call.args) != 2 or call.keywords:
+            continue
+        w = call.args[0]
+        if not (chain(w) == D or (value is not None and _same_value(fi, w, value))):
+            continue
+        tg = K.callable_target(prog, fi, call.args[1])
+        if tg is None or tg[0] is not target or tg[1]:
+            continue
+        if any(resolve_local(fi.node, x.value) is call for x in kept):
+            out.append(call)
+    return out
+
+
+def _cmp(l, op, r):
+    return ast.Compare(left=l, ops=[op], comparators=[r])
+
+
+def _timer_callback(prog, fi, cb, extra, delete_fi):
+    """What happens when the timer fires: ('eager', None, None) -- Registration.delete runs on every normal
+    path; ('lazy', D, target) -- the callback `target` deletes when the clock has reached self.D and re-arms
+    itself for self.D otherwise; ('no', None, reason)."""
+    if extra:
+        return "no", None, "arguments are passed to the callback"
+    if chain(cb) == "self.delete":
+        return "eager", None, None
+    tg = K.callable_target(prog, fi, cb)
+    if tg is None:
+        return "no", None, "callback %s is not a function of rd.py" % stmt_text(cb, 40)
+    t, pre = tg
+    if t is delete_fi and not pre:
+        return "eager", None, None
+    if isinstance(t.node, ast.Lambda) or not is_plain_sync(t) or pre or [p for p in params(t) if p != "self"]:
+        return "no", None, "callback %s is not a plain parameterless function" % stmt_text(cb, 40)
+    tcfg = cfg_of(t)
+    dels = {tcfg.loc1(c) for c, _ in find("self.delete()", t.node)}
+    if dels and tcfg.must_pass(tcfg.entry, dels):
+        return "eager", None, None
+    if not dels:
+        return "no", None, "%s never calls self.delete()" % t.name
+    # lazy: the clock is compared with one field of the registration
+    cands = []
+    for n in walk_no_nested(t.node):
+        if isinstance(n, ast.Compare) and len(n.ops) == 1 and isinstance(n.ops[0], (ast.Lt, ast.LtE, ast.Gt, ast.GtE)):
+            for a, b in ((n.left, n.comparators[0]), (n.comparators[0], n.left)):
+                cb_ = chain(b)
+                if _is_now(t, a) and cb_ and cb_.startswith("self.") and cb_.count(".") == 1:
+                    cands.append((a, b, cb_))
+    Ds = {c for _, _, c in cands}
+    if len(Ds) != 1:
+        return "no", None, "%s does not delete on every path and does not compare the clock with one deadline field" % t.name
+    D = Ds.pop()
+    if _self_field_stores(t, D) != []:
+        raise AnalysisError("C20.d: the timer callback %s writes its own deadline %s: outside the rule's vocabulary" % (t.short, D))
+    pm = PathModel(t)
+    rearm = {tcfg.loc1(c) for c in _rearm_calls(prog, t, D, t)}
+
+    def holds(path, ops):
+        return any(pm.truth(_cmp(a, op(), b), path) is True for a, b, _ in cands for op in ops)
+
+    for path in pm.paths():
+        if path.end == "raise":
+            continue
+        if path.end == "cut":
+            return "no", None, "loop in %s" % t.name
+        if any(n in dels for n in path.nodes):
+            if not holds(path, (ast.GtE, ast.Gt)):
+                return "no", None, "%s deletes on a path where the clock has not reached %s (%s)" % (t.name, D, pm.describe(path))
+        else:
+            if not holds(path, (ast.Lt, ast.LtE)):
+                return "no", None, "%s neither deletes nor finds the deadline %s still ahead (%s)" % (t.name, D, pm.describe(path))
+            if not any(n in rearm for n in path.nodes):
+                return "no", None, "%s postpones the deletion without re-arming itself for %s (%s)" % (t.name, D, pm.describe(path))
+    return "lazy", D, t
+
+
+def _not_earlier_guard(fi, cfg, nid, D, value):
+    """a guard that dominates nid establishes `value >= self.D` (the deadline does not move backwards)"""
+    for test, pol, _ in cfg.guards(nid):
+        if not (isinstance(test, ast.Compare) and len(test.ops) == 1):
+            continue
+        l, r, op = test.left, test.comparators[0], type(test.ops[0])
+        if chain(l) == D and _same_value(fi, r, value):
+            op = {ast.Lt: ast.Gt, ast.Gt: ast.Lt, ast.LtE: ast.GtE, ast.GtE: ast.LtE}.get(op)
+        elif not (chain(r) == D and _same_value(fi, l, value)):
+            continue
+        # now: value <op> self.D
+        if not pol:
+            op = {ast.Lt: ast.GtE, ast.GtE: ast.Lt, ast.Gt: ast.LtE, ast.LtE: ast.Gt}.get(op)
+        if op in (ast.GtE, ast.Gt):
+            return True
+    return False
+
+
+# ---------------------------------------------------------------------------
 # C20.d
 
 
@@ -1445,13 +1641,19 @@ def d(ctx):
     want = Poly.atom("self.lt") + Poly.atom("self.grace_period")
     arms = []
     for call in calls_in(sf.node):
-        nm = chain(call.func) or ""
+        # (the receiver may itself be a call: asyncio.get_running_loop().call_at(...))
+        nm = chain(call.func) or (call.func.attr if isinstance(call.func, ast.Attribute) else "")
         if (nm.endswith("create_task") or nm.endswith("ensure_future")) and call.args:
             coro = resolve_local(sf.node, call.args[0])
             arms.append((call, "task", coro))
         elif nm.endswith("call_later") and len(call.args) >= 2:
             arms.append((call, "call_later", None))
+        elif nm.endswith("call_at") and len(call.args) >= 2:
+            arms.append((call, "call_at", None))
     ctx.floor("timer arming sites in _set_timeout", len(arms), 1)
+    scfg = cfg_of(sf)
+    delete_fi = prog.func(REG + "delete")
+    lazy = None  # (deadline field, callback) when the timer callback re-checks a deadline (see the helpers above)
     for call, kind, coro in arms:
         if kind == "call_later":
             try:
@@ -1459,7 +1661,21 @@ def d(ctx):
             except norm.NormError:
                 okd = False
             ctx.ob("the timer waits lt + grace_period", okd, sf, call)
-            ctx.ob("the timer fires Registration.delete", chain(call.args[1]) == "self.delete" and len(call.args) == 2, sf, call)
+            mode, D, tgt = _timer_callback(prog, sf, call.args[1], call.args[2:], delete_fi)
+            # a relative timer cannot be the first timer of the lazy design: nothing relates it to the deadline
+            ctx.ob("the timer fires Registration.delete", mode == "eager", sf, call, detail=tgt if mode == "no" else None)
+        elif kind == "call_at":
+            # absolute time: `<loop>.time() + delay`, given directly, through locals, or through a field of the
+            # registration that was assigned on the way to the call
+            val, fields = _when_of(sf, scfg, call)
+            dl = _delay_from_now(sf, val) if val is not None else None
+            ctx.ob("the timer waits lt + grace_period", dl is not None and dl == want, sf, call, detail="fires at %s" % (stmt_text(val, 60) if val is not None else stmt_text(call.args[0], 40)))
+            mode, D, tgt = _timer_callback(prog, sf, call.args[1], call.args[2:], delete_fi)
+            ctx.ob("the timer fires Registration.delete", mode != "no", sf, call, detail=tgt if mode == "no" else None)
+            if mode == "lazy":
+                ctx.ob("the timer is armed for the very deadline its callback re-checks", D in fields, sf, call, detail="callback compares the clock with %s" % D)
+                ctx.need(lazy is None or lazy == (D, tgt), "_set_timeout: timers with different deadline-checking callbacks")
+                lazy = (D, tgt)
         else:
             # the task runs a coroutine function of rd.py (closure, method or module function); what it sleeps
             # for and what it calls afterwards are traced through its parameters to the arguments given here,
@@ -1508,6 +1724,40 @@ def d(ctx):
         gv = None
     ctx.ob("grace_period is a non-negative constant", isinstance(gv, (int, float)) and gv >= 0, None, None, construct="Registration.grace_period = %s" % (ast.unparse(gp) if gp is not None else "?"))
 
+    # lazy design: every writer of the deadline field keeps the invariant `the pending timer does not fire
+    # later than the deadline`
+    lazy_writes = {}  # function short name -> [Assign]
+    if lazy is not None:
+        D, tgt = lazy
+        attr = D.split(".")[1]
+        ctx.note("lifetime timer re-checks the deadline %s in %s: all writers of the field are examined" % (D, tgt.short))
+        for f in prog.funcs.values():
+            if not _in_rd(f):
+                continue
+            for k, x in stores_to_any(f.node, attr):
+                mine = _owner_class(f) == _owner_class(sf) and k == "assign" and isinstance(x, ast.Assign) and len(x.targets) == 1 and chain(x.targets[0]) == D
+                ctx.ob("the deadline of a registration is written only by plain assignments in Registration's own methods", mine, f, x)
+                if not mine:
+                    continue
+                lazy_writes.setdefault(f.short, []).append(x)
+                fcfg = cfg_of(f)
+                wn = fcfg.loc1(x)
+                dl = _delay_from_now(f, x.value)
+                ctx.ob("the deadline is now + lt + grace_period", dl is not None and dl == want, f, x)
+                arm_n = {fcfg.loc1(c) for c in _rearm_calls(prog, f, D, tgt, x.value)} - {wn}
+                armed = bool(arm_n) and all(fcfg.must_pass(s_, arm_n) for s_, lbl in fcfg.succ[wn] if lbl != "exc") \
+                    and not any(fcfg.loc1(y) in fcfg.reach({wn}, avoid=arm_n) for y in (_self_field_stores(f, D) or ()) if y is not x)
+                if armed and f is not sf:
+                    # arming outside _set_timeout (whose callers are examined below): the pending timer must be
+                    # cancelled first, or two timers run and the handle of one of them is lost
+                    cn = [fcfg.loc1(c) for c, _ in find("self.timeout.cancel()", f.node)]
+                    ctx.ob("the pending timer is cancelled before another one is armed for a new deadline",
+                           all(any(fcfg.dominates(c, a_) and c != a_ for c in cn) for a_ in arm_n), f, x, construct="%s: timeout.cancel() before call_at" % f.name)
+                # not armed: the pending timer stays; it is early enough only when the deadline did not move backwards
+                ok = armed or _not_earlier_guard(f, fcfg, wn, D, x.value)
+                ctx.ob("a new deadline is armed, or is not earlier than the one the pending timer was armed for "
+                       "(a lifetime shortened by an update must not wait for the old timer)", ok, f, x)
+
     # refresh_timeout
     # (a private helper of update_params: when it was inlined, the cancel-before-re-arm obligation is decided
     # at the _set_timeout() calls of update_params below)
@@ -1516,8 +1766,11 @@ def d(ctx):
         rcfg = cfg_of(rf)
         cancels = [rcfg.loc1(c) for c, _ in find("self.timeout.cancel()", rf.node)]
         sets = [rcfg.loc1(c) for c, _ in find("self._set_timeout()", rf.node)]
-        ctx.ob("refresh_timeout re-arms the timer on every normal path", bool(sets) and rcfg.must_pass(rcfg.entry, set(sets)), rf, rf.node, construct="refresh_timeout: _set_timeout()")
-        ctx.ob("refresh_timeout cancels the running timer before re-arming", bool(sets) and bool(cancels) and all(any(rcfg.dominates(c, s) and c != s for c in cancels) for s in sets), rf, rf.node,
+        # lazy design: moving the deadline restarts the lifetime as well (whether the pending timer is early
+        # enough for it was decided per writer above)
+        moves = [rcfg.loc1(x) for x in lazy_writes.get(rf.short, ())]
+        ctx.ob("refresh_timeout re-arms the timer on every normal path", bool(sets or moves) and rcfg.must_pass(rcfg.entry, set(sets) | set(moves)), rf, rf.node, construct="refresh_timeout: _set_timeout()")
+        ctx.ob("refresh_timeout cancels the running timer before re-arming", bool(sets or moves) and (bool(cancels) or not sets) and all(any(rcfg.dominates(c, s) and c != s for c in cancels) for s in sets), rf, rf.node,
                construct="refresh_timeout: timeout.cancel() before _set_timeout()")
 
     # update_params
@@ -1528,7 +1781,7 @@ def d(ctx):
     init_flag = upp[2]
     s_nodes = [ucfg.loc1(c) for c, _ in find("self._set_timeout()", up.node)]
     r_nodes = [ucfg.loc1(c) for c, _ in find("self.refresh_timeout()", up.node)]
-    allt = set(s_nodes) | set(r_nodes)
+    allt = set(s_nodes) | set(r_nodes) | {ucfg.loc1(x) for x in lazy_writes.get(up.short, ())}
     ctx.floor("timer calls in update_params", len(allt), 1)
     ctx.ob("every normal path of update_params arms or refreshes the lifetime timer", ucfg.must_pass(ucfg.entry, allt), up, up.node, construct="update_params: timer on every path")
     ctx.ob("no path of update_params touches the timer twice", not any(y in ucfg.reach({x}) for x in allt for y in allt), up, up.node, construct="update_params: timer at most once")
@@ -2166,3 +2419,13 @@ R.seed("C20.k", F_LF, _LF_TAIL, _LF_TAIL.replace("    return data\n", "        d
 R.seed("C20.k", F_LH, "            list(pair) for pair in (attr_pairs or []) + list(kwargs.items())\n", "            list(pair) for pair in list(dict(attr_pairs or []).items()) + list(kwargs.items())\n", "Link.__init__ de-duplicates the attribute names it is given")
 R.seed("C20.k", F_LH, "            link if isinstance(link, Link) else Link(*link) for link in links or []\n", "            link if isinstance(link, Link) else Link(*link) for link in (links or [])[:64]\n", "LinkHeader keeps only the first links it is given")
 R.seed("C20.k", F, "            return parse(message.payload.decode(\"utf8\"))\n", "            return LinkFormat(parse(message.payload.decode(\"utf8\")).links[:32])\n", "registrations are capped at a number of links on their way to the handlers")
+
+# eighth pass: C20.d also interprets absolute timers (loop.call_at) and the lazy design (the callback re-checks a
+# deadline field and re-arms itself); the invariant over all writers of the deadline must bite
+_D_ARM = "            self.timeout = asyncio.create_task(\n                longwait(delay, self.delete),\n                name=\"RD Timeout for %r\" % self,\n            )\n"
+R.seed("C20.d", F, _D_ARM, "            loop = asyncio.get_running_loop()\n            self.timeout = loop.call_at(loop.time() + self.lt, self.delete)\n", "absolute timer (call_at) without the grace period")
+R.seed("C20.d", F, _D_ARM + "\n        def refresh_timeout(self):\n            self.timeout.cancel()\n            self._set_timeout()\n",
+       "            loop = asyncio.get_running_loop()\n            self.deadline = loop.time() + delay\n            self.timeout = loop.call_at(self.deadline, self._expire)\n\n"
+       "        def _expire(self):\n            loop = asyncio.get_running_loop()\n            if self.deadline <= loop.time():\n                self.delete()\n                return\n            self.timeout = loop.call_at(self.deadline, self._expire)\n\n"
+       "        def refresh_timeout(self):\n            self.deadline = asyncio.get_running_loop().time() + self.lt + self.grace_period\n",
+       "lazy timer: updates only move a deadline the pending timer re-checks; a shortened lifetime takes effect when the old, later timer fires")
